@@ -145,6 +145,15 @@ class C16(Prop):
             if not ctx.returns(fa, "C16.build"):
                 return
             self._result(ctx, "to_fst", ctx.call(fa.value.to_fst), lambda w: {tuple(w)} if rn.accepts(w) else set(), INPUTS)
+            # symbols that are words of several letters, tuples and integers: each is one output symbol
+            for syms in (["ab", "c1"], [("a", "b"), ("c",)], [1, 2]):
+                rn2 = O.ref_from_case(a, scheme, syms)
+                fa2 = ctx.call(O.build_fa, a, "enfa", scheme, syms)
+                if not ctx.returns(fa2, "C16.build", symbols=repr(syms)):
+                    continue
+                inputs2 = [tuple(w) for w in RN.all_words(syms, 2)]
+                self._result(ctx, "to_fst", ctx.call(fa2.value.to_fst),
+                             lambda w: {tuple(w)} if rn2.accepts(w) else set(), inputs2)
             return
         ra = O.ref_fst_from_case(a, scheme)
         fa = ctx.call(O.build_fst, a, scheme)
